@@ -55,6 +55,21 @@ def gen_lattice(ctx, max_n, step, exhaustive_weights):
     return cases
 
 
+def gen_crisp(ctx):
+    """every tuple of crisp values {-1, 0, 1} ∪ {missing} for 1..3 inputs, held in integer arrays (int64 and int8): the operators compute the same numbers"""
+    cases = []
+    for n in (1, 2, 3):
+        arrs = lattice_arrays(n, Fraction(1))
+        for dt in (numpy.int64, numpy.int8):
+            ins = [numpy.ma.array(numpy.ma.getdata(a).astype(dt), mask=numpy.ma.getmaskarray(a).copy()) for a in arrs]
+            for cmd in OPS:
+                if (cmd == "FuzzyNot" and n != 1) or (cmd == "FuzzyXOr" and n < 2):
+                    continue
+                for p in op_params(ctx, cmd, n):
+                    cases.append(Case(cmd, p, [a.copy() for a in ins]))
+    return cases
+
+
 def gen_random(ctx, cmds, count):
     cases = []
     for cmd in cmds:
@@ -134,6 +149,7 @@ def run(ctx):
     ctx.notes["lattice"] = "all tuples over {-1..1 step %s} ∪ {missing} for 1..3 inputs: %d columns per operator/parameter choice" % (step, sum((int(2 / step) + 2) ** n for n in (1, 2, 3)))
     ctx.notes["exhaustive_lattice_n_le_3"] = True
     eems.run_stream(ctx, model, lat, "exec:fuzzy-ops:lattice", on_result=orc)
+    eems.run_stream(ctx, model, gen_crisp(ctx), "exec:fuzzy-ops:crisp-integer-fields", on_result=orc)
     eems.run_stream(ctx, model, gen_random(ctx, OPS, ctx.budget(12, 400)), "exec:fuzzy-ops:random-4-5", on_result=orc)
     wild = [eems.gen_case(ctx.rng, cmd, style="wild") for cmd in OPS for _ in range(ctx.budget(8, 200))]
     eems.run_stream(ctx, model, wild, "exec:fuzzy-ops:errors", on_result=orc)
